@@ -138,13 +138,16 @@ CrossEku ==
 Templates == {Linear(0), Linear(1), Linear(2), Cross, Loop, Diamond, DeepCross, TwinRoots, CrossEku}
 
 \* --- knobs: one change to one certificate or to the query ---
-CertKnobs == {"none", "expired", "notyet", "notca", "nocertsign", "pathlen0", "pathlen1", "forged", "permit_ok", "permit_other", "crit",
+CertKnobs == {"none", "expired", "notyet", "notca", "nocertsign", "pathlen0", "pathlen1", "forged", "permit_ok", "permit_other", "permit_two", "permit_two_other", "crit",
               "noski", "otherski"}      \* the issuer certificate in the pool was re-issued without / with another key identifier
 ApplyC(c, k) == CASE k = "expired" -> [c EXCEPT !.na = 3] [] k = "notyet" -> [c EXCEPT !.nb = 7]
                   [] k = "notca" -> [c EXCEPT !.ca = FALSE] [] k = "nocertsign" -> [c EXCEPT !.certsign = FALSE]
                   [] k = "pathlen0" -> [c EXCEPT !.pathlen = 0] [] k = "pathlen1" -> [c EXCEPT !.pathlen = 1]
                   [] k = "forged" -> [c EXCEPT !.signer = "kForged"]
                   [] k = "permit_ok" -> [c EXCEPT !.permitted = {"example.com"}] [] k = "permit_other" -> [c EXCEPT !.permitted = {"other.org"}]
+                  \* several permitted subtrees: a name inside ANY of them is permitted
+                  [] k = "permit_two" -> [c EXCEPT !.permitted = {"other.org", "example.com"}]
+                  [] k = "permit_two_other" -> [c EXCEPT !.permitted = {"other.org", "b.a.example.com"}]
                   [] k = "crit" -> [c EXCEPT !.crit = TRUE]
                   [] k = "noski" -> [c EXCEPT !.ski = "none"] [] k = "otherski" -> [c EXCEPT !.ski = "other"] [] OTHER -> c
 \* knobs that make sense for a certificate: leaves have no CA knobs
@@ -189,7 +192,7 @@ PairCases == IF ~Pairs THEN {} ELSE
                            : id \in {i \in DOMAIN b.sc.certs : i > b.ck[1]}} : b \in {x \in BaseCases : x.ck[2] # "none"}}
 HasPermit(sc) == \E i \in DOMAIN sc.certs : sc.certs[i].permitted # {}
 Cases == UNION {{[sc |-> ApplyQ(b.sc, qk), ck |-> b.ck, qk |-> qk] : qk \in (IF b.ck[2] = "none" THEN QueryKnobs ELSE {"q_none"})} : b \in BaseCases \cup PairCases}
-         \cup {[sc |-> ApplyQ(b.sc, qk), ck |-> b.ck, qk |-> qk] : b \in {x \in BaseCases : x.ck[2] \in {"permit_ok", "permit_other"}}, qk \in {"name_other", "name_dot", "name_case"}}
+         \cup {[sc |-> ApplyQ(b.sc, qk), ck |-> b.ck, qk |-> qk] : b \in {x \in BaseCases : x.ck[2] \in {"permit_ok", "permit_other", "permit_two", "permit_two_other"}}, qk \in {"name_other", "name_dot", "name_case"}}
 \* (what permitted DNS domains mean when no DNS name is requested, or an IP address is, is left open by the statement: not generated)
 Init == c \in Cases /\ done = FALSE
 SetToSeq(S) == CHOOSE f \in [1..Cardinality(S) -> S] : \A i, j \in 1..Cardinality(S) : i # j => f[i] # f[j]
